@@ -26,7 +26,7 @@
 (***************************************************************************)
 EXTENDS LqRender
 
-CONSTANTS G, Templates, Envs, Pol, Budget
+CONSTANTS G, Templates, Envs, Pol, Budget, Cache
 
 VARIABLES heap, run, hist, left
 evars == <<heap, run, hist, left>>
@@ -38,12 +38,14 @@ Perms(n) == {p \in [1..n -> 1..n] : \A i, j \in 1..n : p[i] = p[j] => i = j}
 \* the largest map any template may iterate has 3 entries in the bounded models
 PermChoices == IF Pol.sortKeys THEN {<<1, 2, 3>>} ELSE Perms(3)
 
-CxFor(perm) == [Cx0 EXCEPT !.perm = perm]
+CxFor(perm) == [Cx0 EXCEPT !.perm = perm, !.cache = Cache]
 
 EInit == /\ heap = [b \in 1..Len(Envs) |-> EnvOf(Envs[b])]
          /\ run = [g \in Gor |-> Idle]
          /\ hist = <<>>
          /\ left = Budget
+
+IsRender(g) == run[g].busy /\ "caching" \notin DOMAIN run[g]
 
 Start(g, t, b) ==
   /\ ~run[g].busy /\ left > 0
@@ -54,7 +56,7 @@ Start(g, t, b) ==
   /\ UNCHANGED <<heap, hist>>
 
 StepR(g) ==
-  /\ run[g].busy /\ run[g].st.status = "run"
+  /\ IsRender(g) /\ run[g].st.status = "run"
   /\ LET s2 == Step(CxFor(run[g].perm), run[g].st) IN
        /\ run' = [run EXCEPT ![g].st = s2]
        \* without the copy, the render's variable map IS the caller's map
@@ -62,12 +64,19 @@ StepR(g) ==
   /\ UNCHANGED <<hist, left>>
 
 Finish(g) ==
-  /\ run[g].busy /\ run[g].st.status # "run"
+  /\ IsRender(g) /\ run[g].st.status # "run"
   /\ hist' = Append(hist, [g |-> g, t |-> run[g].t, b |-> run[g].b, status |-> run[g].st.status, out |-> run[g].st.sink.acc])
   /\ run' = [run EXCEPT ![g] = Idle]
   /\ UNCHANGED <<heap, left>>
 
-ENext == \E g \in Gor : StepR(g) \/ Finish(g) \/ \E t \in 1..Len(Templates), b \in 1..Len(Envs) : Start(g, t, b)
+\* ParseTemplateAndCache by goroutine g: two steps (begin, end), between which it is writing the engine's cache
+BeginCache(g) == /\ ~run[g].busy /\ left > 0
+                 /\ run' = [run EXCEPT ![g] = [busy |-> TRUE, caching |-> TRUE]]
+                 /\ left' = left - 1 /\ UNCHANGED <<heap, hist>>
+EndCache(g) == /\ run[g].busy /\ "caching" \in DOMAIN run[g]
+               /\ run' = [run EXCEPT ![g] = Idle] /\ UNCHANGED <<heap, hist, left>>
+ENext == \E g \in Gor : StepR(g) \/ Finish(g) \/ BeginCache(g) \/ EndCache(g)
+                         \/ \E t \in 1..Len(Templates), b \in 1..Len(Envs) : Start(g, t, b)
 
 \* ------------------------------------------------------------------ C03
 \* rendering never changes the caller's bindings
@@ -78,7 +87,7 @@ Alone(t, b) == Render(CxFor(<<1, 2, 3>>), Templates[t], EnvOf(Envs[b]))
 Independent == \A i \in 1..Len(hist) :
                  LET a == Alone(hist[i].t, hist[i].b) IN a.status = "unspec" \/ (hist[i].status = a.status /\ (a.status = "ok" => hist[i].out = a.out))
 \* every render starts from the caller's bindings only: no variable, loop or cycle state survives
-NoCarryOver == \A g \in Gor : (run[g].busy /\ run[g].st.steps = 0) =>
+NoCarryOver == \A g \in Gor : (IsRender(g) /\ run[g].st.steps = 0) =>
                  /\ SameEnv(run[g].st.env, heap[run[g].b])
                  /\ Len(run[g].st.k) = 1 /\ run[g].st.sig = "none" /\ Len(run[g].st.ws) = 1
 
@@ -87,12 +96,14 @@ Deterministic == \A i, j \in 1..Len(hist) :
                    (hist[i].t = hist[j].t /\ hist[i].b = hist[j].b) => (hist[i].status = hist[j].status /\ hist[i].out = hist[j].out)
 
 \* ------------------------------------------------------------------ C04
-\* the shared cells the next step of g writes
+\* the shared cells the next step of g writes / reads
+NextNode(g) == LET f == Top(run[g].st.k) IN IF f.f = "seq" /\ f.pc <= Len(f.nodes) THEN f.nodes[f.pc] ELSE [t |-> "none"]
+Stepping(g) == IsRender(g) /\ run[g].st.status = "run" /\ run[g].st.sig = "none"
 NextWrites(g) ==
-  IF ~(run[g].busy /\ run[g].st.status = "run" /\ run[g].st.sig = "none") THEN {}
-  ELSE LET f == Top(run[g].st.k) IN
-    IF f.f = "seq" /\ f.pc <= Len(f.nodes) /\ f.nodes[f.pc].t = "cycle" THEN {"cycle.err"} \cap Pol.cells
-    ELSE {}
-\* no two goroutines are ever both about to write the same shared cell
-NoConflict == \A g1, g2 \in Gor : g1 # g2 => NextWrites(g1) \cap NextWrites(g2) = {}
+  IF run[g].busy /\ "caching" \in DOMAIN run[g] THEN {"engine.cache"} \cap Pol.cells
+  ELSE IF Stepping(g) /\ NextNode(g).t = "cycle" THEN {"cycle.err"} \cap Pol.cells
+  ELSE {}
+NextReads(g) == IF Stepping(g) /\ NextNode(g).t = "include" THEN {"engine.cache"} \cap Pol.cells ELSE {}
+\* no two goroutines are ever both about to touch the same shared cell, one of them writing
+NoConflict == \A g1, g2 \in Gor : g1 # g2 => NextWrites(g1) \cap (NextWrites(g2) \cup NextReads(g2)) = {}
 =============================================================================
